@@ -66,14 +66,14 @@ def to_bed(rows, ncol=4, track=False):
     return "\n".join(out) + "\n"
 
 
-def to_interval(rows, header=True):
+def to_interval(rows, header=True, strands=("+",)):
     out = []
     if header:
         out += ["@HD\tVN:1.4\tSO:unsorted"]
         for c in dict.fromkeys(r[0] for r in rows):
             out.append(f"@SQ\tSN:{c}\tLN:400000000")
     for c, s, e, g in rows:
-        out.append("\t".join([c, str(s + 1), str(e), "+", g]))
+        out.append("\t".join([c, str(s + 1), str(e), strands[len(out) % len(strands)], g]))
     return "\n".join(out) + "\n"
 
 
